@@ -45,15 +45,16 @@ FORMS = ['convert1', 'convert2', 'convertdict', 'convertwhere',
          'convertpassrow', 'convertmethod', 'convertall', 'convertnumbers',
          'format', 'formatall', 'interpolate', 'interpolateall', 'fieldmap',
          'fieldmap2', 'rowmap', 'rowmapmany', 'fieldmapdict',
-         'fieldmapexpr', 'sub', 'fieldmap3']
+         'fieldmapexpr', 'sub', 'fieldmap3', 'fieldmapnofield']
 TWO_FIELD = ('convert2', 'convertdict', 'convertall', 'fieldmap2',
              'fieldmap3')
-NATURAL = ('fieldmapdict', 'fieldmapexpr', 'sub',
+NATURAL = ('fieldmapdict', 'fieldmapexpr', 'sub', 'fieldmapnofield',
            'convertmethod', 'convertnumbers', 'format', 'formatall',
            'interpolate', 'interpolateall')
 
 
 _CELLKIND = ['int']
+_RESUMABLE = [False]
 
 
 def _cell(code):
@@ -241,6 +242,24 @@ class Faults(object):
         return lazy if self.lazy else f
 
     def rowgen(self, j):
+        def item(rid, i):
+            if (rid, 'row') in self.fail and i == j[rid % len(j)]:
+                e = self.cls(rid, 'row') \
+                    if self.cls is not InjectedStop else \
+                    Injected(rid, 'row')
+                self.made.append(e)
+                raise e
+            return [rid, i]
+
+        def resumable(row):
+            # not a generator: an iterator that could be asked again after
+            # it raised (map over the parts of a record); the failing row's
+            # output still ends with the failure
+            rid = row[0]
+            return map(lambda i: item(rid, i), range(3))
+        if _RESUMABLE[0]:
+            return resumable
+
         def g(row):
             rid = row[0]
             for i in range(3):
@@ -263,6 +282,7 @@ def budget(tier):
 def gen_case(rng, tier, g):
     case = _gen_case(rng, tier, g)
     case['fluent'] = rng.random() < 0.15
+    case['resumable'] = case['form'] == 'rowmapmany' and rng.random() < 0.4
     r_ = rng.random()
     if r_ < 0.15:
         case['upstream'] = 'records'
@@ -466,6 +486,14 @@ def _build(e, case, fl, policy, mode, tbl):
         # fails (TypeError), which is a failing mapping like any other
         from collections import OrderedDict
         m = OrderedDict([('id', 'id'), ('v', ('v', dict(_TRANSLATE))),
+                         ('w', 'w')] + ([('x', 'x')] if case['extra_col']
+                                        else []))
+        return _fieldmap(e, case, tbl, m, evkw)
+    if form == 'fieldmapnofield':
+        # a mapping that names a field the table does not have: it fails
+        # for every row (KeyError), and is a failing mapping like any other
+        from collections import OrderedDict
+        m = OrderedDict([('id', 'id'), ('v', ('nosuch', _same)),
                          ('w', 'w')] + ([('x', 'x')] if case['extra_col']
                                         else []))
         return _fieldmap(e, case, tbl, m, evkw)
@@ -763,6 +791,10 @@ def _run_view(view, consumers):
 def _subsets(case, points):
     """Every subset of the fault points; or, for a long table, the listed
     runs of consecutive failing rows only."""
+    if case['form'] == 'fieldmapnofield':
+        # (every row fails, whatever it holds)
+        yield set(points)
+        return
     if case.get('failsets'):
         fields = sorted(set(f for _, f in points))
         for lo, hi, nf in case['failsets']:
@@ -793,6 +825,7 @@ def run_case(case):
     _CELLKIND[0] = case.get('cellkind', 'int')
     _RETURN_EXC[0] = bool(case.get('returns_exc'))
     _FLAKY[0] = bool(case.get('flaky')) and case['consumers'] == 1
+    _RESUMABLE[0] = bool(case.get('resumable'))
     try:
         # a decoy view of the same form, iterated first with another
         # errorvalue under policy False: a view's error handling must not
@@ -925,6 +958,7 @@ def run_case(case):
         _CELLKIND[0] = 'int'
         _RETURN_EXC[0] = False
         _FLAKY[0] = False
+        _RESUMABLE[0] = False
     return outcome('ok', digest=log.hexdigest(), steps=nruns,
                    probes={'form:' + form: 1, 'fault-points-x-policies-x-modes':
                            nruns, 'two-consumers': case['consumers'] - 1,
